@@ -107,6 +107,58 @@ fn part_a(rep: &mut Report, sql: &SqliteStore, rt: &tokio::runtime::Runtime) {
             }
         }
     }
+    // Forgery without any signing key: a small-order ("weak") public key together with the
+    // signature (R = identity, S = 0) satisfies the non-strict Ed25519 verification equation for
+    // every message.  Nobody signed these headers, so they must never be accepted.
+    let small_order: [(&str, [u8; 32]); 4] = [
+        ("identity", { let mut b = [0u8; 32]; b[0] = 1; b }),
+        ("order-2", { let mut b = [0xffu8; 32]; b[0] = 0xec; b[31] = 0x7f; b }),
+        ("order-4", [0u8; 32]),
+        ("order-8", [0x26, 0xe8, 0x95, 0x8f, 0xc2, 0xb2, 0x27, 0xb0, 0x45, 0xc3, 0xf4, 0x89, 0xf2, 0xef, 0x98, 0xf0, 0xd5, 0xdf, 0xac, 0x05, 0xd3, 0xc6, 0x33, 0x39, 0xb1, 0x38, 0x02, 0x88, 0x6d, 0x53, 0xfc, 0x05]),
+    ];
+    for (kn, kb) in small_order {
+        let Ok(vk) = p2panda_core::VerifyingKey::from_bytes(&kb) else {
+            rep.outcome(&("weak-key-not-decodable", kn));
+            continue;
+        };
+        for (rn, rb) in small_order {
+            for seq in 0..8u32 {
+                // several messages per key: for keys of order > 1 the equation holds for 1/order of them
+                let mut sig = [0u8; 64];
+                sig[..32].copy_from_slice(&rb);
+                let header = Header::<()> {
+                    version: 1,
+                    verifying_key: vk,
+                    signature: Some(p2panda_core::Signature::from_bytes(&sig)),
+                    payload_size: 0,
+                    payload_hash: None,
+                    seq_num: 0,
+                    backlink: None,
+                    extensions: (),
+                };
+                // vary the message through the payload fields
+                let body = Body::new(format!("weak-{seq}").as_bytes());
+                let header = Header::<()> { payload_size: body.size(), payload_hash: Some(body.hash()), ..header };
+                let op = Operation { hash: header.hash(), header, body: Some(body) };
+                let (res, before, after) = rt.block_on(async {
+                    reset(sql).await;
+                    let before = dump(sql).await;
+                    let res = ingest(sql, &op, 1).await;
+                    (res, before, dump(sql).await)
+                });
+                rep.eval();
+                rep.transition();
+                let desc = format!("weak-key-forgery key={kn} R={rn} message#{seq}");
+                rep.state(&desc);
+                rep.nontrivial(&desc);
+                if res.starts_with("Ok(") {
+                    rep.violation("accepted-invalid/signature/weak-key-forgery", format!("{desc}: a header nobody signed (small-order public key, signature R||0) was accepted: {res}"), json!({"part": "A-weak", "case": desc}));
+                } else if before != after {
+                    rep.violation("rejected-but-store-changed", format!("{desc}: {res} but the store changed"), json!({"part": "A-weak", "case": desc}));
+                }
+            }
+        }
+    }
     rep.set("part_a_accepted", json!(accepted_n));
     if accepted_n == 0 {
         rep.machinery_error("C01 part A: no header was accepted (vacuous)".into());
@@ -430,6 +482,28 @@ fn run_base<E: p2panda_core::Extensions + PartialEq>(
             (res, before, after)
         });
         rep.outcome(&res);
+        // same mutant offered again once the genuine operation is stored (duplicate path)
+        let (res_dup, before_dup, after_dup) = rt.block_on(async {
+            reset(sql).await;
+            if let Some(p) = pred {
+                ingest(sql, p, 1).await;
+            }
+            ingest(sql, base, 1).await;
+            let before = dump(sql).await;
+            let res = ingest(sql, &op, 1).await;
+            (res, before, dump(sql).await)
+        });
+        rep.eval();
+        rep.transition();
+        if res_dup.starts_with("Ok(") {
+            rep.violation(
+                format!("tampered-accepted-as-duplicate/{}", m.class),
+                format!("base {tag}: with the genuine operation already stored, mutation {} is answered {res_dup} (accepted as a valid duplicate) instead of being rejected", m.name),
+                json!({"part": "B-duplicate", "base": tag, "mutation": m.name}),
+            );
+        } else if before_dup != after_dup {
+            rep.violation("rejected-but-store-changed", format!("base {tag}: mutation {} (genuine op stored) rejected but the store changed", m.name), json!({"part": "B-duplicate", "base": tag, "mutation": m.name}));
+        }
         if res.starts_with("Ok(") {
             rep.violation(
                 format!("tampered-accepted/{}", m.class),
